@@ -1,4 +1,420 @@
-import AriadneModel.Spec.BuilderDoc
+/-
+  C14 — The custom operation builder emits valid, faithful, history-free documents.
+
+  Models:  Model/CustomGen.lean (schema ↦ generated builder classes), Model/Builder.lean (GraphQLField
+  objects, the store of class-level objects, `to_ast`, `get_formatted_variables`, the client's
+  assembly), Spec/BuilderDoc.lean (what an expression says, resolved documents, validator, triggers).
+  Quantification: every schema IR, every history (list of operations), every operation (list of
+  builder expressions of any size and depth), every store — no size bound anywhere.
+
+  The property is FALSE on the pinned tree (five findings).  Hence:
+    `C14_full`        the property at full strength,
+    `C14_full_false`  refuted from one concrete witness per finding (F1 … F5),
+    `C14_partial`     the property outside the finding triggers (`Supported_14`), narrowed by the explicitly
+                      named `Proved_14` (no mutator on a class-level object anywhere in the history or the
+                      operation — stronger than ¬F4, which only forbids *re-using* a mutated accessor);
+                      the region between the two is covered by correspondence and oracle only.
+-/
+import AriadneModel.Proofs.C14Main
+
+set_option linter.unusedSimpArgs false
+set_option linter.unusedVariables false
+set_option maxRecDepth 8192
 
 namespace Ariadne.C14
+open Ariadne Ariadne.Builder Ariadne.CustomGen Ariadne.BuilderDoc
+
+/-! ## Must-tier theorems about the builder runtime (any package, any store, any tree) -/
+
+/-- `var_names_unique`: whatever the tree (references to mutated class-level objects included), whatever
+    the names already taken: the variables `to_ast` writes into the selection of one top-level field are
+    pairwise distinct, none of them was taken before, and the used-names set grows by exactly them. -/
+theorem var_names_unique (fuel idx : Nat) (st : Store) (used : List String) (n : Node)
+    (s : Sel) (n' : Node) (st' : Store) (used' : List String)
+    (h : toAst fuel idx st used n = .ok (s, n', st', used')) :
+    (selVars s).Nodup ∧ (∀ v ∈ selVars s, v ∉ used) ∧ used' = used ++ selVars s := by
+  obtain ⟨e, nd, dj⟩ := toAst_ext idx fuel st used n s n' st' used' h
+  exact ⟨nd, dj, e⟩
+
+example : ∃ s n' st' u', toAst 5 0 [] ["n_0"]
+    (.obj { cls := "C", fieldName := "f", vars := [{ key := "n", ty := "Int", value := .num 1 0 }] }
+      [.obj { cls := "C", fieldName := "g", vars := [{ key := "n", ty := "Int", value := .num 2 0 }] } [] []] [])
+    = .ok (s, n', st', u') ∧ selVars s = ["n_0_1", "n_0_2"] := ⟨_, _, _, _, rfl, by decide⟩
+
+/-- `none_omitted`: a generated accessor records exactly the arguments the caller passed a non-None value
+    for — under the GraphQL argument name, with the recorded type and the caller's value; an argument left
+    as None produces neither an argument nor (there being no entry) a variable. -/
+theorem none_omitted (specs : List ArgSpec) (kw : List (String × J)) (vars : List Var)
+    (h : bindArgs specs kw = .ok vars) :
+    (∀ v ∈ vars, v.value ≠ .null) ∧
+    (∀ v ∈ vars, ∃ s ∈ specs, v.key = s.key ∧ v.ty = s.ty ∧ lookupKw s.param kw = some v.value) ∧
+    (∀ s ∈ specs, ∀ x, lookupKw s.param kw = some x → x ≠ .null →
+        ∃ v ∈ vars, v.key = s.key ∧ v.ty = s.ty ∧ v.value = x) := by
+  obtain ⟨a, b, _, d⟩ := bindArgs_none_omitted h
+  exact ⟨a, b, d⟩
+
+example : bindArgs [{ key := "first", ty := "Int", param := "first", required := false },
+                    { key := "orderBy", ty := "Order!", param := "order_by", required := true }]
+    [("order_by", .str "ASC"), ("first", .null)] = .ok [{ key := "orderBy", ty := "Order!", value := .str "ASC" }] := rfl
+
+/-- `history_free` (expressions built from fresh objects only): a history none of whose operations applies
+    `alias`/`on`/`fields` to a class-level object leaves no trace — whatever `E` is (even one that does
+    mutate class-level objects), it produces after that history exactly what it produces in a fresh process. -/
+theorem history_free (p : Package) (H : List Op) (E : Op)
+    (hH : ∀ op ∈ H, opMutatesShared op = false) :
+    (runOps p (H ++ [E])).getLast? = (runOps p [E]).getLast? := by
+  obtain ⟨a, b⟩ := getLast_runOps p H E hH
+  rw [a, b]
+
+/-- `declared_once_and_bound` + the recorded type: one client call over a process whose class-level objects
+    are untouched, a tree carrying no argument below level 2 (¬F2) and no variable name shared between two
+    top-level fields (¬F5): substituting (declared type, sent value) for every variable of the document gives
+    back the tree of field objects — each field's name, alias, its non-None arguments with recorded type and
+    the caller's value, its selections; every variable is used exactly once; the definitions are exactly the
+    used variables; and the process is left as it was found. -/
+theorem declared_once_and_bound (st : Store) (hp : Pristine st) (ty nm : String) (nodes : List Node) (d : Doc) (st' : Store)
+    (h : execOp ty nm st nodes = .ok (d, st'))
+    (hdeep : NoVarsBelowList 2 nodes = true) (hclash : crossClash d.sels = false) :
+    resolveDoc d = some (intendedList st nodes) ∧ (docVars d).Nodup ∧ d.varDefs.map (·.1) = docVars d ∧ st' = st := by
+  obtain ⟨a, b, c, e, -, -⟩ := execOp_bound hp ty nm nodes d st' h hdeep hclash
+  exact ⟨b, c, e, a⟩
+
+/-! ## The generators -/
+
+/-- a type reference as GraphQL allows it: `!` never directly wraps `!` -/
+def TRef.wf : TRef → Bool
+  | .named _ => true
+  | .list t => TRef.wf t
+  | .nonNull (.nonNull _) => false
+  | .nonNull t => TRef.wf t
+
+/-- `declared_type_exact`: for an argument type without a list wrapper the string the generator records
+    (`final.name` + `!` iff non-null) IS the exact GraphQL type. -/
+theorem declared_type_exact (t : TRef) (hwf : TRef.wf t = true) (hl : t.hasList = false) :
+    typeString t = t.render := by
+  cases t with
+  | named n => rfl
+  | list t => simp [TRef.hasList] at hl
+  | nonNull t =>
+    cases t with
+    | named n => rfl
+    | list t => simp [TRef.hasList] at hl
+    | nonNull t => simp [TRef.wf] at hwf
+
+/-- … and for list types it never is (F1 is unavoidable for every list-typed argument): the recorded
+    string has no bracket. -/
+example : typeString (.nonNull (.list (.nonNull (.named "Order")))) = "Order!" ∧
+    (TRef.nonNull (.list (.nonNull (.named "Order")))).render = "[Order!]!" := by decide
+
+theorem argSpec_exact (a : ArgDef) (hwf : TRef.wf a.ty = true) (hl : a.ty.hasList = false) :
+    (argSpec a).ty = (argSpec a).exactTy := declared_type_exact a.ty hwf hl
+
+/-- class-level objects always carry the GraphQL name (`generate_constant(org_name)`); only classmethods
+    are given the python name. -/
+theorem fieldAccessor_shared (s : Schema) (t : String) (f : FieldDef)
+    (h : (fieldAccessor s t f).kind = .shared) : (fieldAccessor s t f).fieldName = (fieldAccessor s t f).gqlName := by
+  unfold fieldAccessor at h ⊢
+  simp only []
+  split <;> simp_all <;> split <;> simp_all
+
+theorem fieldAccessor_method (s : Schema) (t : String) (f : FieldDef)
+    (h : (fieldAccessor s t f).kind = .method) :
+    (fieldAccessor s t f).fieldName = f.py ∧ (fieldAccessor s t f).gqlName = f.name := by
+  unfold fieldAccessor at h ⊢
+  simp only []
+  split <;> simp_all <;> split <;> simp_all
+
+theorem rootAccessor_name (s : Schema) (f : FieldDef) :
+    (rootAccessor s f).fieldName = f.name ∧ (rootAccessor s f).gqlName = f.name ∧ (rootAccessor s f).kind = .method := by
+  simp [rootAccessor]
+
+theorem genPackage_sharedExact (s : Schema) :
+    ∀ ca ∈ (genPackage s).sharedList, ca.2.fieldName = ca.2.gqlName := by
+  intro ca hca
+  unfold Package.sharedList at hca
+  obtain ⟨c, hc, hm⟩ := List.mem_flatMap.mp hca
+  obtain ⟨a, ha, rfl⟩ := List.mem_map.mp hm
+  obtain ⟨ha1, ha2⟩ := List.mem_filter.mp ha
+  have hk : a.kind = .shared := by simpa using ha2
+  simp only [genPackage, List.mem_append] at hc
+  rcases hc with (((hc | hc) | hc) | hc) | hc
+  · obtain ⟨t, _, ht⟩ := List.mem_filterMap.mp hc
+    split at ht
+    · split at ht
+      · simp at ht; subst ht
+        obtain ⟨f, _, rfl⟩ := List.mem_map.mp ha1
+        exact fieldAccessor_shared s t.name f hk
+      · simp at ht; subst ht
+        obtain ⟨f, _, rfl⟩ := List.mem_map.mp ha1
+        exact fieldAccessor_shared s t.name f hk
+      · simp at ht
+    · simp at ht
+  · obtain ⟨t, _, ht⟩ := List.mem_filterMap.mp hc
+    split at ht
+    · simp at ht
+    · split at ht <;> simp at ht <;> subst ht <;> simp at ha1
+  · simp at hc; subst hc; simp at ha1
+  · split at hc
+    · simp at hc
+    · simp at hc; subst hc
+      obtain ⟨f, _, rfl⟩ := List.mem_map.mp ha1
+      simp [rootAccessor] at hk
+  · split at hc
+    · simp at hc
+    · simp at hc; subst hc
+      obtain ⟨f, _, rfl⟩ := List.mem_map.mp ha1
+      simp [rootAccessor] at hk
+
+/-! ## "Valid against the schema" -/
+
+/-- the Spec validator accepts the document whenever the document, with variables substituted, is a
+    well-typed selection on the schema's root type, every variable is used once and the definitions are
+    exactly the used variables. -/
+theorem valid_against_schema (s : Schema) (d : Doc) (rs : List RSel) (root : String)
+    (hroot : rootType s d.opType = some root) (hres : resolveDoc d = some rs)
+    (hne : rs.isEmpty = false) (hv : validRSels s root rs = true)
+    (hnd : (docVars d).Nodup) (hdefs : d.varDefs.map (·.1) = docVars d) : validDoc s d = true :=
+  valid_of_resolved s d rs root hroot hres hne hv hnd hdefs
+
+/-! ## The property -/
+
+/-- What C14 promises for the operation `E` sent after the history `H` (statement of properties.jsonl):
+    a document is sent (no exception); with its variables substituted it is what the expression says —
+    fields and arguments under their GraphQL names, every non-None argument present with the argument's exact
+    GraphQL type and the caller's value, None arguments omitted; every used variable is declared exactly once
+    and used once; the document is valid against the schema; and it is the document the same expression
+    produces in a fresh process. -/
+structure GoodDoc (s : Schema) (H : List Op) (E : Op) (doc : Doc) : Prop where
+  sent : (runOps (genPackage s) (H ++ [E])).getLast? = some (.ok doc)
+  faithful : resolveDoc doc = Intended (genPackage s) E
+  usedOnce : (docVars doc).Nodup
+  declaredOnce : doc.varDefs.map (·.1) = docVars doc
+  valid : validDoc s doc = true
+  historyFree : (runOps (genPackage s) [E]).getLast? = some (.ok doc)
+
+def GoodAfter (s : Schema) (H : List Op) (E : Op) : Prop := ∃ doc, GoodDoc s H E doc
+
+/-- every operation of the history and the operation itself is a well-typed selection written with the
+    generated classes -/
+def ValidInput (s : Schema) (H : List Op) (E : Op) : Prop :=
+  ∀ op ∈ H ++ [E], ValidExpr s (genPackage s) op = true
+
+def C14_full : Prop := ∀ (s : Schema) (H : List Op) (E : Op), ValidInput s H E → GoodAfter s H E
+
+/-- outside every finding trigger (one decidable predicate per open finding of findings.d/C14.json) -/
+def Supported_14 (s : Schema) (H : List Op) (E : Op) : Prop :=
+  ¬ (trigListArgList (genPackage s) E.fields = true            -- F1 listArg
+     ∨ trigDeepList 1 E.fields = true                           -- F2 deepVars
+     ∨ trigPyNameList (genPackage s) E.fields = true            -- F3 pyName
+     ∨ trigSharedMut H E = true                                 -- F4 sharedMut
+     ∨ trigClash ((runOps (genPackage s) (H ++ [E])).getLast?.getD (.error .recursion)) = true)  -- F5 nameClash
+
+/-- the narrowing still in force: no mutator on a class-level object anywhere (implies ¬F4) -/
+def Proved_14 (H : List Op) (E : Op) : Prop :=
+  (∀ op ∈ H, opMutatesShared op = false) ∧ opMutatesShared E = false
+
+/-- the builder does not raise (the totality of `to_ast` on acyclic object graphs — fuel, pigeonhole of the
+    name loop — is not proved yet; it is a hypothesis here and observed by the correspondence check) -/
+def Sends (s : Schema) (H : List Op) (E : Op) : Prop :=
+  ∃ d, (runOps (genPackage s) (H ++ [E])).getLast? = some (.ok d)
+
+theorem C14_partial (s : Schema) (H : List Op) (E : Op)
+    (hvalid : ValidExpr s (genPackage s) E = true) (hsup : Supported_14 s H E) (hpr : Proved_14 H E)
+    (hsends : Sends s H E) : GoodAfter s H E := by
+  obtain ⟨d, hd⟩ := hsends
+  unfold Supported_14 at hsup
+  simp only [not_or, Bool.not_eq_true] at hsup
+  obtain ⟨h1, h2, h3, -, h5⟩ := hsup
+  rw [hd] at h5
+  simp only [Option.getD_some, trigClash] at h5
+  obtain ⟨g1, g2, g3, g4, g5, g6, g7⟩ :=
+    op_good (genPackage s) H E d (genPackage_sharedExact s) hpr.1 hpr.2 h1 h2 h3 hd h5
+  refine ⟨d, hd, g1, g3, g4, ?_, g7⟩
+  unfold ValidExpr at hvalid
+  rw [← g5] at hvalid
+  split at hvalid
+  · rename_i root rs hroot hint
+    simp only [Bool.and_eq_true, Bool.not_eq_true'] at hvalid
+    exact valid_of_resolved s d rs root hroot (by rw [g1, hint]) hvalid.1 hvalid.2 g3 g4
+  · simp at hvalid
+
+/-! ## Witnesses: one schema, one operation per finding -/
+
+namespace W
+
+def nn (n : String) : TRef := .nonNull (.named n)
+def idF : FieldDef := { name := "id", py := "id", opPy := "id", ty := nn "ID", args := [] }
+
+def schema : Schema :=
+  { types := [
+      { name := "String", kind := .scalar }, { name := "Int", kind := .scalar }, { name := "ID", kind := .scalar },
+      { name := "Order", kind := .enum },
+      { name := "User", kind := .object, fields := [
+          idF,
+          { name := "bestFriend", py := "best_friend", opPy := "best_friend", ty := .named "User", args := [] },
+          { name := "posts", py := "posts", opPy := "posts", ty := .list (.named "Post"),
+            args := [{ name := "tags", py := "tags", ty := .list (nn "String") }] },
+          { name := "pet", py := "pet", opPy := "pet", ty := .named "Pet", args := [] }] },
+      { name := "Post", kind := .object, fields := [
+          idF, { name := "title", py := "title", opPy := "title", ty := .named "String",
+                 args := [{ name := "maxLen", py := "max_len", ty := .named "Int" }] }] },
+      { name := "Dog", kind := .object, fields := [
+          idF, { name := "name", py := "name", opPy := "name", ty := .named "String", args := [] },
+          { name := "owner", py := "owner", opPy := "owner", ty := .named "User", args := [] }] },
+      { name := "Cat", kind := .object, fields := [
+          idF, { name := "name", py := "name", opPy := "name", ty := .named "String", args := [] }] },
+      { name := "Pet", kind := .union, members := ["Dog", "Cat"] },
+      { name := "Item", kind := .object, fields := [
+          idF, { name := "part", py := "part", opPy := "part", ty := .named "String",
+                 args := [{ name := "n", py := "n", ty := .named "Int" }] }] },
+      { name := "Query", kind := .object, fields := [
+          { name := "me", py := "me", opPy := "me", ty := .named "User", args := [] },
+          { name := "users", py := "users", opPy := "users", ty := .nonNull (.list (nn "User")),
+            args := [{ name := "orderBy", py := "order_by", ty := .nonNull (.list (nn "Order")) },
+                     { name := "tags", py := "tags", ty := .list (nn "String") }] },
+          { name := "a", py := "a", opPy := "a", ty := .named "Item", args := [] },
+          { name := "b", py := "b", opPy := "b", ty := .named "Item",
+            args := [{ name := "n_0", py := "n_0", ty := .named "String" }] }] }],
+    query := some "Query", mutation := none }
+
+def uid : Expr := .attr "UserFields" "id"
+def me (cs : List Expr) : Expr := .fields (.call "Query" "me" []) cs
+def q (name : String) (fs : List Expr) : Op := { opType := "query", name := name, fields := fs }
+
+/-- F1  `Query.users(order_by=["ASC"], tags=["x"]).fields(UserFields.id)` -/
+def opF1 : Op := q "Op" [.fields (.call "Query" "users" [("order_by", .arr [.str "ASC"]), ("tags", .arr [.str "x"])]) [uid]]
+/-- F2  `Query.me().fields(UserFields.posts().fields(PostFields.title(max_len=3)))` -/
+def opF2 : Op := q "Op" [me [.fields (.call "UserFields" "posts" []) [.call "PostFields" "title" [("max_len", .num 3 0)]]]]
+/-- F3  `Query.me().fields(UserFields.best_friend().fields(UserFields.id))` -/
+def opF3 : Op := q "Op" [me [.fields (.call "UserFields" "best_friend" []) [uid]]]
+/-- F4  history `Query.me().fields(UserFields.id.alias("ident"))`, then `Query.me().fields(UserFields.id)` -/
+def opF4h : Op := q "Op0" [me [.alias uid "ident"]]
+def opF4 : Op := q "Op1" [me [uid]]
+/-- F4' `UserFields.pet.on("Dog", DogFields.owner().fields(UserFields.pet.on("Cat", CatFields.name)))`: RecursionError -/
+def opF4r : Op := q "Op" [me [.on (.attr "UserFields" "pet") "Dog"
+  [.fields (.call "DogFields" "owner" []) [.on (.attr "UserFields" "pet") "Cat" [.attr "CatFields" "name"]]]]]
+/-- F5  `Query.a().fields(part(n=1).alias("p"), part(n=2).alias("q")), Query.b(n_0="s").fields(ItemFields.id)` -/
+def opF5 : Op := q "Op" [
+  .fields (.call "Query" "a" []) [.alias (.call "ItemFields" "part" [("n", .num 1 0)]) "p",
+                                  .alias (.call "ItemFields" "part" [("n", .num 2 0)]) "q"],
+  .fields (.call "Query" "b" [("n_0", .str "s")]) [.attr "ItemFields" "id"]]
+
+def lastDoc (rs : List (Except Err Doc)) : Option Doc :=
+  match rs.getLast? with
+  | some (.ok d) => some d
+  | _ => none
+
+theorem lastDoc_of {rs : List (Except Err Doc)} {d : Doc} (h : rs.getLast? = some (.ok d)) : lastDoc rs = some d := by
+  simp [lastDoc, h]
+
+def sentText (H : List Op) (E : Op) : Option String := (lastDoc (runOps (genPackage schema) (H ++ [E]))).map showDoc
+def resolvedText (H : List Op) (E : Op) : Option String :=
+  ((lastDoc (runOps (genPackage schema) (H ++ [E]))).bind resolveDoc).map showRSels
+def intendedText (E : Op) : Option String := (Intended (genPackage schema) E).map showRSels
+
+/-- from `GoodAfter`: the resolved text of what was sent is the text of what the expression says -/
+theorem texts_agree {H : List Op} {E : Op} (g : GoodAfter schema H E) : resolvedText H E = intendedText E := by
+  obtain ⟨d, g⟩ := g
+  simp only [resolvedText, intendedText, lastDoc_of g.sent, Option.bind_some, g.faithful]
+
+theorem texts_history {H : List Op} {E : Op} (g : GoodAfter schema H E) : sentText H E = sentText [] E := by
+  obtain ⟨d, g⟩ := g
+  simp only [sentText, lastDoc_of g.sent, List.nil_append, lastDoc_of g.historyFree]
+
+theorem sends_of_text {H : List Op} {E : Op} (h : (sentText H E).isSome = true) : Sends schema H E := by
+  unfold Sends
+  cases hh : (runOps (genPackage schema) (H ++ [E])).getLast? with
+  | none => simp [sentText, lastDoc, hh] at h
+  | some r =>
+    cases r with
+    | ok d => exact ⟨d, rfl⟩
+    | error e => simp [sentText, lastDoc, hh] at h
+
+/-- all witness operations are well-typed selections written with the generated classes -/
+theorem witnesses_valid : ∀ op ∈ [opF1, opF2, opF3, opF4h, opF4, opF4r, opF5], ValidExpr schema (genPackage schema) op = true := by
+  decide
+
+/-- F1: `$orderBy_0: Order!` for `[Order!]!`, `$tags_0: String` for `[String!]` -/
+theorem F1_witness : ¬ GoodAfter schema [] opF1 := fun g => absurd (texts_agree g) (by decide)
+example : resolvedText [] opF1 = some "users(orderBy: Order! = [\"ASC\",] tags: String = [\"x\",]) { id() } " := by decide
+example : intendedText opF1 = some "users(orderBy: [Order!]! = [\"ASC\",] tags: [String!] = [\"x\",]) { id() } " := by decide
+example : trigListArgList (genPackage schema) opF1.fields = true := by decide
+
+/-- F2: `$maxLen_0` is used at depth 3 and never declared: the document does not even resolve -/
+theorem F2_witness : ¬ GoodAfter schema [] opF2 := fun g => absurd (texts_agree g) (by decide)
+example : sentText [] opF2 = some "query Op() { me() { posts() { title(maxLen: $maxLen_0) } } } " := by decide
+example : resolvedText [] opF2 = none := by decide
+example : trigDeepList 1 opF2.fields = true := by decide
+
+/-- F3: `best_friend` instead of `bestFriend` -/
+theorem F3_witness : ¬ GoodAfter schema [] opF3 := fun g => absurd (texts_agree g) (by decide)
+example : resolvedText [] opF3 = some "me() { best_friend() { id() } } " := by decide
+example : intendedText opF3 = some "me() { bestFriend() { id() } } " := by decide
+example : trigPyNameList (genPackage schema) opF3.fields = true := by decide
+
+/-- F4: the alias given to the class-level `UserFields.id` in an earlier operation is still there -/
+theorem F4_witness : ¬ GoodAfter schema [opF4h] opF4 := fun g => absurd (texts_history g) (by decide)
+example : sentText [opF4h] opF4 = some "query Op1() { me() { ident: id() } } " := by decide
+example : sentText [] opF4 = some "query Op1() { me() { id() } } " := by decide
+example : trigSharedMut [opF4h] opF4 = true := by decide
+
+/-- F4': nesting the class-level union accessor inside itself: `to_ast` never returns (RecursionError) -/
+theorem F4r_witness : ¬ GoodAfter schema [] opF4r := fun ⟨d, g⟩ => by
+  have h := lastDoc_of g.sent
+  have hn : lastDoc (runOps (genPackage schema) ([] ++ [opF4r])) = none := by decide
+  rw [hn] at h
+  simp at h
+example : trigSharedMut [] opF4r = true := by decide
+
+/-- F5: `n_0_1` is both the second `n` of field 0 and the `n_0` of field 1: declared once (String), bound once ("s") -/
+theorem F5_witness : ¬ GoodAfter schema [] opF5 := fun g => absurd (texts_agree g) (by decide)
+example : sentText [] opF5 = some
+    "query Op($n_0: Int $n_0_1: String) { a() { p: part(n: $n_0) q: part(n: $n_0_1) } b(n_0: $n_0_1) { id() } } n_0:1e-0,n_0_1:\"s\"," := by
+  decide
+example : trigClash ((runOps (genPackage schema) [opF5]).getLast?.getD (.error .recursion)) = true := by decide
+
+end W
+
+theorem C14_full_false : ¬ C14_full := by
+  intro h
+  refine W.F1_witness (h W.schema [] W.opF1 ?_)
+  intro op hop
+  simp only [List.nil_append, List.mem_singleton] at hop
+  subst hop
+  exact W.witnesses_valid _ (by simp)
+
+/-- each finding refutes the property on its own -/
+theorem C14_full_false_each :
+    (ValidInput W.schema [] W.opF1 ∧ ¬ GoodAfter W.schema [] W.opF1) ∧
+    (ValidInput W.schema [] W.opF2 ∧ ¬ GoodAfter W.schema [] W.opF2) ∧
+    (ValidInput W.schema [] W.opF3 ∧ ¬ GoodAfter W.schema [] W.opF3) ∧
+    (ValidInput W.schema [W.opF4h] W.opF4 ∧ ¬ GoodAfter W.schema [W.opF4h] W.opF4) ∧
+    (ValidInput W.schema [] W.opF4r ∧ ¬ GoodAfter W.schema [] W.opF4r) ∧
+    (ValidInput W.schema [] W.opF5 ∧ ¬ GoodAfter W.schema [] W.opF5) := by
+  have v := W.witnesses_valid
+  refine ⟨⟨?_, W.F1_witness⟩, ⟨?_, W.F2_witness⟩, ⟨?_, W.F3_witness⟩, ⟨?_, W.F4_witness⟩, ⟨?_, W.F4r_witness⟩, ⟨?_, W.F5_witness⟩⟩
+  all_goals
+    intro op hop
+    simp only [List.nil_append, List.cons_append, List.mem_cons, List.mem_singleton, List.not_mem_nil, or_false] at hop
+    rcases hop with rfl | rfl <;> exact v _ (by simp)
+
+/-! ## Non-vacuity of `C14_partial`: a non-trivial operation satisfying every hypothesis -/
+
+namespace W
+/-- `Query.me().fields(UserFields.id, UserFields.posts(tags=None).alias("p").fields(PostFields.id))`,
+    `Query.b(n_0="s").alias("other").fields(ItemFields.part(n=1))`  after an unrelated earlier operation -/
+def opOK : Op := q "Op" [
+  me [uid, .fields (.alias (.call "UserFields" "posts" [("tags", .null)]) "p") [.attr "PostFields" "id"]],
+  .fields (.alias (.call "Query" "b" [("n_0", .str "s")]) "other") [.call "ItemFields" "part" [("n", .num 1 0)]]]
+def opHist : Op := q "Op0" [me [uid]]
+end W
+
+example : ValidExpr W.schema (genPackage W.schema) W.opOK = true := by decide
+example : Supported_14 W.schema [W.opHist] W.opOK := by unfold Supported_14; decide
+example : Proved_14 [W.opHist] W.opOK := by unfold Proved_14; decide
+example : W.sentText [W.opHist] W.opOK = some
+    "query Op($n_0_1: String $n_1: Int) { me() { id() p: posts() { id() } } other: b(n_0: $n_0_1) { part(n: $n_1) } } n_0_1:\"s\",n_1:1e-0," := by
+  decide
+example : Sends W.schema [W.opHist] W.opOK := W.sends_of_text (by decide)
+
 end Ariadne.C14
